@@ -3,3 +3,4 @@ pub mod flood;
 pub mod raw;
 pub mod rawpeer;
 pub mod sim;
+pub mod window;
